@@ -48,7 +48,7 @@ func isViperGetter(c *ssa.CallCommon) (string, bool) {
 
 func runC19(p *core.Prog, r *core.Report, tier string) {
 	ds := core.NewDescriber()
-	var getters, loopGetters []*ssa.Function
+	var getters, loopGetters, walkGetters []*ssa.Function
 	for _, f := range p.FuncsIn("util") {
 		if f.Parent() != nil || f.Object() == nil {
 			continue
@@ -75,7 +75,12 @@ func runC19(p *core.Prog, r *core.Report, tier string) {
 			getters = append(getters, f)
 		} else if loopPathPhi(f) != nil {
 			loopGetters = append(loopGetters, f)
+		} else if j, _ := prefixWalk(f); j != nil {
+			walkGetters = append(walkGetters, f)
 		}
+	}
+	for _, f := range walkGetters {
+		loopGetters = append(loopGetters, f)
 	}
 	r.Count("hierarchical getters", len(getters)+len(loopGetters))
 	r.Floor("C19 hierarchical getters", len(getters)+len(loopGetters), 5)
@@ -84,7 +89,16 @@ func runC19(p *core.Prog, r *core.Report, tier string) {
 		names = append(names, f.Name())
 		checkHierarchical(p, r, ds, f)
 	}
+	isWalk := map[*ssa.Function]bool{}
+	for _, f := range walkGetters {
+		isWalk[f] = true
+	}
 	for _, f := range loopGetters {
+		if isWalk[f] {
+			names = append(names, f.Name()+" (prefix walk)")
+			checkPrefixWalk(p, r, ds, f)
+			continue
+		}
 		names = append(names, f.Name()+" (iterative)")
 		checkHierarchicalLoop(p, r, ds, f)
 	}
@@ -358,6 +372,102 @@ func runC19(p *core.Prog, r *core.Report, tier string) {
 
 // loopPathPhi recognises the iterative form of a hierarchical getter: a string variable that starts as a string
 // parameter and is replaced, around a loop, by a prefix slice of itself. Returns that loop-carried variable.
+// prefixWalk recognises the third form of a hierarchical getter: the path is split at the dots and, in a loop, the key
+// is built from strings.Join(components[:k], ".") for a k that depends on the loop index. Returns the Join call and the
+// slice of the components.
+func prefixWalk(f *ssa.Function) (*ssa.Call, *ssa.Slice) {
+	var join *ssa.Call
+	var sl *ssa.Slice
+	core.EachInstr(f, func(in ssa.Instruction) {
+		c, ok := in.(*ssa.Call)
+		if !ok || core.CalleeName(&c.Call) != "strings.Join" || !core.InLoop(in) {
+			return
+		}
+		x, ok := c.Call.Args[0].(*ssa.Slice)
+		if !ok {
+			return
+		}
+		if sp, ok := x.X.(*ssa.Call); ok && core.CalleeName(&sp.Call) == "strings.Split" {
+			join, sl = c, x
+		}
+	})
+	return join, sl
+}
+
+// checkPrefixWalk (T_walk): a getter that walks the prefixes of the path. Walking from the least specific prefix
+// upwards, the value found last must win (no exit from the loop on a hit); walking from the whole path downwards, the
+// first hit must win. Other shapes are left undecided.
+func checkPrefixWalk(p *core.Prog, r *core.Report, ds *core.Describer, f *ssa.Function) {
+	base := core.FnKey(f)
+	join, sl := prefixWalk(f)
+	// direction: High == (range index) + 1  → ascending prefixes
+	ascending := false
+	if b, ok := sl.High.(*ssa.BinOp); ok && b.Op == token.ADD && sl.Low == nil {
+		if c, isC := b.Y.(*ssa.Const); isC && c.Value != nil && c.Value.ExactString() == "1" {
+			if coll, ok := core.RangeIndex(b.X); ok && coll == sl.X {
+				ascending = true
+			}
+		}
+	}
+	if !ascending {
+		r.Undecide("C19.4", base+"|walk-order", p.Pos(join.Pos()), "a prefix walk whose order is not `for i := range components { … components[:i+1] … }`: "+ds.D(sl).String())
+		return
+	}
+	// the loop: header = the block that dominates the Join and has a back edge; body = blocks dominated by it that reach it
+	var header *ssa.BasicBlock
+	for _, h := range f.Blocks {
+		if !h.Dominates(join.Block()) {
+			continue
+		}
+		for _, pr := range h.Preds {
+			if h.Dominates(pr) && (header == nil || header.Dominates(h)) {
+				header = h
+			}
+		}
+	}
+	if header == nil {
+		r.Undecide("C19.4", base+"|walk-order", p.Pos(join.Pos()), "loop of the prefix walk not found")
+		return
+	}
+	inBody := map[*ssa.BasicBlock]bool{}
+	var mark func(b *ssa.BasicBlock)
+	mark = func(b *ssa.BasicBlock) {
+		if inBody[b] || !header.Dominates(b) {
+			return
+		}
+		inBody[b] = true
+		for _, pr := range b.Preds {
+			mark(pr)
+		}
+	}
+	for _, pr := range header.Preds {
+		if header.Dominates(pr) {
+			mark(pr)
+		}
+	}
+	inBody[header] = true
+	var exit ssa.Instruction
+	for b := range inBody {
+		if b == header {
+			continue
+		}
+		for _, su := range b.Succs {
+			if !inBody[su] {
+				exit = b.Instrs[len(b.Instrs)-1]
+			}
+		}
+		if _, isRet := b.Instrs[len(b.Instrs)-1].(*ssa.Return); isRet {
+			exit = b.Instrs[len(b.Instrs)-1]
+		}
+	}
+	pos := p.Pos(join.Pos())
+	if exit != nil && exit.Pos().IsValid() {
+		pos = p.Pos(exit.Pos())
+	}
+	r.Check(exit == nil, "C19.4", base+"|walk-order|most-specific-wins", pos, "the prefixes are visited from the least specific upwards and every one is looked at: the value found last — the most specific — is the result",
+		"the prefixes are visited from the least specific upwards, but the walk stops at the first value it finds: a value configured at a parent level hides the one configured at the component's own level")
+}
+
 func loopPathPhi(f *ssa.Function) *ssa.Phi {
 	var out *ssa.Phi
 	core.EachInstr(f, func(in ssa.Instruction) {
